@@ -19,7 +19,7 @@ VARIANTS = [{"name": "core_counter=%s,txn_writeback=%s,removal_writeback=%s,rmw_
 VARIANTS[0]["name"] = "current(" + VARIANTS[0]["name"] + ")"
 VARIANTS[-1]["name"] = "fixed(" + VARIANTS[-1]["name"] + ")"
 
-RULE = ("a case is a history over the names a,b,c (+ core.Dataset): create (plain / proxy / virtual / public namespaces), delete, "
+RULE = ("a case is a history over the names a,b,c,x:a,y.a (+ core.Dataset; the last two end in another name after ':' / '.'): create (plain / proxy / virtual / public namespaces), delete, "
         "rename (also onto deleted and existing names), re-create, public-namespace updates of a meta entity through a batch or a "
         "transaction on core.Dataset (incl. removal), several meta entities (live ones and tombstones) posted back in one batch, batches and multi-dataset transactions over a 3-6 id pool (repeated ids in a "
         "batch, identical re-posts, ids known from other datasets, ids first seen as reference targets), and forced two-actor "
@@ -40,7 +40,7 @@ ASSUMPTIONS = ["quiescent observations; sequential histories except for the sing
                "dataset names (GetDatasetDetails scans one page of 1000); no crash (C04)"]
 
 CODES = sc.Codes()
-NAMES = ["a", "b", "c"]
+NAMES = ["a", "b", "c", "x:a", "y.a"]      # the last two end in ":a" / ".a": GET /datasets/a must not return them
 CORE = "core.Dataset"
 KINDS = {"plain": 0}
 PUBS = {}
@@ -135,6 +135,14 @@ def cop_term(op, lens):
     raise ValueError("op kind not handled: " + k)
 
 
+def det_items(d):
+    """items reported by GetDatasetDetails(name) (= GET /datasets/name) if the entity it returns is the name's own live
+    meta entity, else -77 (never predicted): a details answer about another dataset or a deleted entity is no answer"""
+    if d.get("detfound") and (d.get("detname") != d["name"] or d.get("detid") != d["name"] or d.get("detdeleted")):
+        return -77
+    return d.get("detitems", 0)
+
+
 def snapshot_term(names, oo):
     listed = sorted(ncode(n) for n in (oo.get("list") or []))
     live = sorted((100000 + ncode(i), ncode(n) if n else -1) for i, n in (oo.get("live") or []))
@@ -149,7 +157,7 @@ def snapshot_term(names, oo):
         dss.append("{| o_name := %d; o_exists := %s; o_rset := %s; o_versions := %s; o_distinct := %s; o_latest := %s; o_det_found := %s; o_det_items := %s |}" % (
             ncode(n), vlib.coq_bool(d.get("exists", False)), rset, vlib.coq_list([meta_term(m) for m in d.get("metas", [])]),
             vlib.zlit(d.get("distinct", 0)), vlib.zlit(d.get("latestcount", 0)), vlib.coq_bool(d.get("detfound", False)),
-            vlib.zlit(d.get("detitems", 0) if d.get("exists") else 0)))
+            vlib.zlit(det_items(d) if d.get("exists") else 0)))
     bad = bool(oo.get("err") or oo.get("panic"))
     return "{| o_names := %s; o_live := %s; o_ds := %s |}" % (
         vlib.coq_list([vlib.zlit(-9)] if bad else [vlib.zlit(x) for x in listed]),
@@ -236,6 +244,17 @@ def witness_cases():
             {"op": "concurrent_pair", "ds": "a", "ents": [E("e6")], "b": {"op": "setpubns", "ds": "a", "pubns": ["http://x/"], "via": "batch"}}, DET,
             {"op": "concurrent_pair", "ds": "a", "ents": [E("e7")], "b": {"op": "rename", "ds": "a", "to": "c"}}, DET,
             {"op": "concurrent_pair", "ds": "b", "ents": [E("e8")], "b": {"op": "delete", "ds": "b"}}, DET]},
+        # names that end in another name after ':' / '.': each GET /datasets/{name} answers with the name's own meta entity
+        {"datasets": ["a"], "names": ALLN, "ops": [
+            {"op": "batch", "ds": "a", "ents": [E("e1"), E("e2")]},
+            {"op": "create", "ds": "x:a", "set": {"pubns": ["http://x/"]}},
+            {"op": "create", "ds": "y.a", "set": None},
+            {"op": "batch", "ds": "x:a", "ents": [E("e1"), E("e2"), E("e3")]},
+            {"op": "batch", "ds": "y.a", "ents": [E("e4")]}, DET,
+            {"op": "setpubns", "ds": "x:a", "pubns": ["http://w/"], "via": "batch"},
+            {"op": "rename", "ds": "a", "to": "b"}, DET,
+            {"op": "rename", "ds": "x:a", "to": "a"}, {"op": "create", "ds": "x:a", "set": None}, DET,
+            {"op": "delete", "ds": "y.a"}, {"op": "restart"}, DET]},
         # several meta entities posted back to core.Dataset in one batch: the tombstone of a deleted dataset (with
         # publicNamespaces) in front of live datasets whose publicNamespaces change; every posted entity is synced
         {"datasets": ["b", "c"], "names": ALLN, "ops": [
@@ -414,7 +433,7 @@ def _spec_failures(c, o):
                 mine = [l for l in live if l[0] == d["name"] or l[1] == d["name"]]
                 if mine != [[d["name"], d["name"]]] and mine != [(d["name"], d["name"])]:
                     found.add("counter")
-                if not d.get("detfound") or (d["name"] != CORE and d.get("detitems") != d["distinct"]):
+                if not d.get("detfound") or det_items(d) == -77 or (d["name"] != CORE and d.get("detitems") != d["distinct"]):
                     found.add("counter")
             else:
                 if any(l[0] == d["name"] or l[1] == d["name"] for l in live):
